@@ -271,13 +271,25 @@ type detection struct {
 // before that op started, nor before the failure existed.
 func detect(r *RPCObs, a, next *AttObs) detection {
 	if next != nil {
-		var perf *OpRec
+		// tier 1: in progress (by sequence) when the next HEADERS arrived; tier 2:
+		// returned at that very instant (SendMsg returns once the frames are
+		// queued, the server reads them a moment later at the same virtual time)
+		var perf, perf2 *OpRec
 		for _, op := range r.Ops {
-			if op.StartSeq < next.HeadersSeq && (op.EndSeq == 0 || op.EndSeq > next.HeadersSeq) && (op.K == "R" || op.K == "I" || op.K == "S") {
+			if op.StartSeq >= next.HeadersSeq || op.K != "R" && op.K != "I" && op.K != "S" {
+				continue
+			}
+			switch {
+			case op.EndSeq == 0 || op.EndSeq > next.HeadersSeq:
 				if perf == nil || op.K != "S" {
 					perf = op
 				}
+			case op.EndAt >= next.HeadersAt:
+				perf2 = op // latest started
 			}
+		}
+		if perf == nil {
+			perf = perf2
 		}
 		if perf != nil {
 			d := detection{found: true, at: a.ActionAt, refSeq: a.ActionSeq}
